@@ -960,15 +960,21 @@ class Executor:
         plain = [n for n in names if not n.startswith("*")]
         star_name = next((n for n in names if n.startswith("*") and not n.startswith("**")), None)
         dstar_name = next((n for n in names if n.startswith("**")), None)
+        missing = []
         for n in plain:
             if pos:
                 vals[n] = pos.pop(0)
             elif n in kw:
                 vals[n] = kw.pop(n)
+            elif ca.dstar is not None and dstar_name is None:
+                missing.append(n)
             elif n in defaults:
                 vals[n] = defaults[n]
             else:
                 self.unsupported(node, f"missing argument {n!r} in call")
+        if missing:
+            self.forward_dstar(path, params, vals, missing, ca, defaults, node)
+            ca = CallArgs(ca.pos, ca.kw, ca.star, None)
         if pos:
             if star_name is None:
                 self.unsupported(node, "too many positional arguments")
@@ -1005,8 +1011,27 @@ class Executor:
             if kw:
                 self.unsupported(node, f"unexpected keyword arguments {list(kw)}")
             if ca.dstar is not None:
-                # **bundle forwarded to named parameters: read them out of the dict
                 self.unsupported(node, "**kwargs forwarded to a function without **kwargs")
+        return vals
+
+    def forward_dstar(self, path, params, vals, missing, ca, defaults, node=None):
+        """**bundle forwarded to NAMED parameters: each still-missing parameter takes the dict's entry if
+        present, else its default (assumed: the bundle holds no key that is not a parameter)."""
+        has, val = path.sel("dict.has", ca.dstar.e), path.sel("dict.val", ca.dstar.e)
+        types = dict((n.lstrip("*"), t) for n, t in params)
+        for n in missing:
+            if n not in defaults:
+                self.unsupported(node, f"missing argument {n!r} (not in defaults) with **kwargs forwarding")
+            key = z3.StringVal(n)
+            present, raw, d = z3.Select(has, key), z3.Select(val, key), defaults[n]
+            t = types.get(n, "any")
+            if isinstance(d, B) or t == "bool":
+                dv = d.e if isinstance(d, B) else truth_of(path, d)
+                vals[n] = B(z3.If(present, truthy(raw), dv))
+            elif isinstance(d, I) or t == "int":
+                vals[n] = I(z3.If(present, raw, d.e if isinstance(d, I) else ref_of(d)))
+            else:
+                vals[n] = O(z3.If(present, raw, ref_of(d)), t if t not in ("any",) else "Val")
         return vals
 
     # ---- contract application at a call site -------------------------------------------
@@ -1028,6 +1053,8 @@ class Executor:
         return self._apply_contract_now(path, c, a, label, node)
 
     def coerce(self, path, v: V, t: str, node=None) -> V:
+        if t == "Val" and isinstance(v, S):
+            return O(ref_of(v), "Val")  # a str object as a dynamically typed value
         if t in ("Val", "any"):
             if isinstance(v, (S, T, Py, Clo, BM, Coro)):
                 return v
